@@ -512,3 +512,34 @@ def run(index, rep, tier):
                 ok = True
         rep.check(ok, "R13.12", rf.qualname, "a negative tree_offset reaches the counting loop", fn_where(rf, adds[0].ast), "TreeArray.read_from_files refuses a negative tree_offset",
                   "TreeArray.read_from_files adds a tree whenever `count >= %s` without having refused a negative offset: tree_offset=-2 means 'the last two trees' to TreeList.get / TreeList.read, but here the comparison holds from the first tree on, so the array silently holds ALL trees of the source while the list read with the same options holds two" % off)
+
+    # ---- R13.13 the tree offset is counted per source
+    with rep.section("R13.13"):
+        rep.rule("R13.13", "the tree offset is counted per source: in TreeArray.read_from_files the number compared with tree_offset is a counter that is set back to 0 whenever the yielder moves on to the next file (an assignment under a test of the yielder's current_file_index), not the running index of the whole stream - TreeList.get applies the offset to each source it reads, so with two sources and tree_offset=k the array would otherwise skip k trees of the first file only")
+        rf = index.function("dendropy.datamodel.treecollectionmodel.TreeArray.read_from_files")
+        offs = [norm(st.targets[0]) for st in walk_no_nested(rf.node) if isinstance(st, ast.Assign) and isinstance(st.value, ast.Call) and call_name(st.value) in ("pop", "get") and st.value.args and const_value(st.value.args[0], None) == "tree_offset"]
+        if len(offs) != 1:
+            raise AnalysisError("R13.13: TreeArray.read_from_files no longer takes tree_offset from its keywords")
+        off = offs[0]
+        cmps = [x for x in ast.walk(rf.node) if isinstance(x, ast.Compare) and len(x.ops) == 1 and isinstance(x.ops[0], (ast.GtE, ast.Gt, ast.Lt, ast.LtE)) and off in (norm(x.left), norm(x.comparators[0])) and not (isinstance(x.comparators[0], ast.Constant) or isinstance(x.left, ast.Constant))]
+        if not cmps:
+            raise AnalysisError("R13.13: the comparison of a tree count with the offset was not found in TreeArray.read_from_files")
+        n13 = 0
+        for x in cmps:
+            n13 += 1
+            cnt = norm(x.left) if norm(x.comparators[0]) == off else norm(x.comparators[0])
+            enum_targets = {y.id for lp in walk_no_nested(rf.node) if isinstance(lp, ast.For) and isinstance(lp.iter, ast.Call) and call_name(lp.iter) == "enumerate" for y in ast.walk(lp.target) if isinstance(y, ast.Name)}
+            resets = []
+            for iff in walk_no_nested(rf.node):
+                if isinstance(iff, ast.If) and any(isinstance(y, ast.Attribute) and y.attr == "current_file_index" for y in ast.walk(iff.test)) or (isinstance(iff, ast.If) and any(isinstance(y, ast.Name) and "index" in y.id and y.id not in enum_targets for y in ast.walk(iff.test))):
+                    resets += [a for a in ast.walk(iff) if isinstance(a, ast.Assign) and norm(a.targets[0]) == cnt and const_value(a.value, None) == 0]
+            ok = cnt not in enum_targets and bool(resets)
+            rep.check(ok, "R13.13", rf.qualname, "`%s` compared with the offset is not a per-source count" % cnt, fn_where(rf, x), "read_from_files: `%s` is reset per source" % cnt,
+                      "TreeArray.read_from_files compares `%s` with the tree offset, and `%s` is %s: the offset then skips trees of the first source only (two files of three trees with tree_offset=1 give five trees in the array where TreeList.get gives two per file, four in all)" % (cnt, cnt, "the enumerate() index of the whole stream of trees" if cnt in enum_targets else "never set back to 0 when the yielder moves to the next file"))
+        rep.floor("R13.13", "comparisons of a tree count with the offset", 1, n13)
+
+    # ---- R13.14 what the character-block routes switch on the tokenizer, they switch off again
+    with rep.section("R13.14"):
+        rep.rule("R13.14", "what the character-block routes switch on the tokenizer they switch off completely: the mode setters of the NEXUS tokenizer are self-inverse (C09 R09.21) - only the routes that parse character blocks ever capture line ends, so a setter that fails to restore `\\r` makes the data-set and matrix routes disagree with the tree routes, and a string with a path, on CR-LF documents")
+        nb = borrow(index, rep, "C09", {"R09.21"}, "R13.14")
+        rep.floor("R13.14", "borrowed obligations", 2, nb)
